@@ -4,6 +4,8 @@ import Sonic.Proofs.NumberFast
 import Sonic.Proofs.NumberConvert
 import Sonic.Proofs.NumberAnchor
 import Sonic.Proofs.NumberValue
+import Sonic.Proofs.NumberELMain
+import Sonic.Proofs.NumberELPath
 
 /-!
 # C04 — numbers parse to the exact integer or the correctly rounded double
@@ -20,10 +22,13 @@ Proved here, for **all** buffers / numbers (no bound on digit counts or exponent
 * `C04_zero`          every text denoting zero gives `±0.0` (or the integer 0) with the right sign;
 * `C04_fast_exact`, `C04_fast_path_correct`  the exact fast path returns the correctly rounded double;
 * `Rne_monotone`, `C04_retry_sound`  soundness of the `man` / `man+1` agreement test;
-* `Rne_spec`          anchor of the oracle: `Spec.Rne.round` is a nearest binary64, ties to even.
+* `Rne_spec`          anchor of the oracle: `Spec.Rne.round` is a nearest binary64, ties to even;
+* `C04_el_path_correct`  end-to-end: every answer of `parseNumber` through Eisel-Lemire (`el`, and `el2` = the
+                      `man` / `man+1` retry for truncated mantissas) is the value the reference demands;
+* `C04_el_correct`    Eisel-Lemire: `atofEiselLemire64 m e neg = some b → Rne.round neg m e = some b` for every non-zero
+                      64-bit mantissa (what `convert` / `parseFloatEiselLemire64` pass), all exponents, both signs.
 
 OPEN (not stated as theorems; validated per input by the driver's `spec=` column against `Spec.Number.scanNumber`):
-* `C04_el_correct`         `atofEiselLemire64 m e neg = some b → b = Rne.round neg m e`
 * `C04_normalfast_correct` `parseFloatingNormalFast e m neg = some b → b = Rne.round neg m e` (`m ≠ 0`, `-307 < e < 288`)
 * `C04_decimal_correct`    `atofNative txt` is the correctly rounded value of the decimal text (and never faults).
 Known finding F6 (written exponents of 100000 and more saturate the `int exp` accumulator) is outside the guard
@@ -352,5 +357,85 @@ example : Rne.round false 9007199254740993 0 = some 4845873199050653696 ∧ 4845
 example : Rne.round false 17976931348623157 292 = some 9218868437227405311 := by decide +kernel
 example : Rne.round false 1 400 = none := by decide +kernel
 example : value 4607182418800017408 = (2 ^ 1074, 2 ^ 1074) := by decide +kernel
+
+/-! ## the Eisel-Lemire path -/
+
+/-- **Eisel-Lemire is correct whenever it answers.**  For a non-zero mantissa that fits 64 bits (the callers
+    `convert` / `parseFloatEiselLemire64` pass `man ≠ 0`, `man < 10^19`, and `man + 1`), any decimal exponent and either
+    sign: if the model of `AtofEiselLemire64` returns `true` with the bits `b`, then `b` is the correctly rounded
+    binary64 of `±m·10^e` (round to nearest, ties to even: `Rne_spec`).
+    Both hypotheses on `m` are necessary: `atofEiselLemire64 0 0 false = some 4602678819172646912` (not `0.0`) and
+    `atofEiselLemire64 (2^64) 0 false = some 4890909195324358656` (the double `2^63`, the shift wraps).
+    Content of the proof: with `w = m·2^clz` and the table row `T = ⌊10^e·2^s⌋` (`C04_tables`), the 128-bit product
+    `w·T[hi]` — refined with `w·T[lo]` when its low 9 bits are all ones and the low word may carry — brackets the exact
+    `w·10^e·2^s` so tightly that, outside the two cases in which the code gives up (`ambiguous`, and the exact-half-way
+    pattern `xLo = 0 ∧ xHi % 512 = 0 ∧ retMan % 4 = 1`), the upper word fixes the 54-bit quotient `⌊x/2^(g-1)⌋` and
+    whether the remainder is zero; "add the low bit and shift" is then ties-to-even rounding, the wrapping exponent
+    arithmetic equals `g + 1075` whenever it passes `(ret_exp2 - 1) < 0x7FF - 1`, and the only subnormal input that
+    passes the test (quotient `2^54 - 1` at `g = -1075`) rounds up to the smallest normal number in both. -/
+theorem C04_el_correct (m : Nat) (e : Int) (neg : Bool) (b : Nat) (hm : 0 < m) (hm' : m < 2 ^ 64)
+    (h : Sonic.Model.EiselLemire.atofEiselLemire64 m e neg = some b) :
+    Rne.round neg m e = some b :=
+  Sonic.Proofs.EL.el_correct m e neg b hm hm' C04_tables.1.2.2 h
+
+-- non-vacuity: 0.1; a negative number; an input that takes the wider approximation (second product); the largest
+-- double; the carry out of an all-ones 54-bit quotient (2^53 - 0.4 → 2^53); the one subnormal input class that passes
+-- the exponent test (2.2250738585072013e-308, just below 2^-1022, rounds up to the smallest normal number);
+-- the code gives up on an exact half-way case (2^53 + 1), on 1.5 (`xLo = 0`), and outside the table
+example : Sonic.Model.EiselLemire.atofEiselLemire64 1 (-1) false = some 4591870180066957722 := by decide +kernel
+example : Sonic.Model.EiselLemire.atofEiselLemire64 3 (-1) true = some 13822447976325526323 := by decide +kernel
+example : Sonic.Model.EiselLemire.atofEiselLemire64 1858669753882310 (-181) false = some 2127365487756417895 ∧
+    Sonic.Model.EiselLemire.pow10M128 167 = (8522995362035230495, 15309010345804195115) ∧
+    (Sonic.Model.EiselLemire.mulU64 (1858669753882310 * 2 ^ 13) 15309010345804195115).1 = 12636289566544443391 ∧
+    Sonic.Proofs.EL.refine (1858669753882310 * 2 ^ 13) 15309010345804195115 8522995362035230495
+      = (12636289566544443392, 5210025055324290692, false) := by decide +kernel
+example : Sonic.Model.EiselLemire.atofEiselLemire64 17976931348623157 292 false = some 9218868437227405311 := by
+  decide +kernel
+example : Sonic.Model.EiselLemire.atofEiselLemire64 90071992547409916 (-1) false = some 4845873199050653696 := by
+  decide +kernel
+example : Sonic.Model.EiselLemire.atofEiselLemire64 22250738585072013 (-324) false = some (2 ^ 52) ∧
+    Rne.round false 22250738585072013 (-324) = some (2 ^ 52) := by decide +kernel
+example : Sonic.Model.EiselLemire.atofEiselLemire64 9007199254740993 0 false = none := by decide +kernel
+example : Sonic.Model.EiselLemire.atofEiselLemire64 15 (-1) false = none := by decide +kernel
+example : Sonic.Model.EiselLemire.atofEiselLemire64 1 348 false = none := by decide +kernel
+
+/-- **End-to-end for the Eisel-Lemire paths**: whenever `parseNumber` answers through Eisel-Lemire — path `el`
+    (mantissa not truncated, one call) or `el2` (more than 19 significant digits: the calls for `man` and `man + 1`
+    agree) — for a token whose written exponent is below 100000 in magnitude, the stored double is the one the
+    reference demands: the correctly rounded value of the *full* decimal text. -/
+theorem C04_el_path_correct (buf : List Nat) (len start : Nat) (t : Token) (v : JNum) (n : Nat) (p : Path)
+    (ht : scanToken (buf.drop start) = some t) (hexp : (expVal t.exp).natAbs < 100000)
+    (hp : p = .el ∨ p = .el2) (h : parseNumber buf len start = .ok v n p) :
+    scanNumber buf start = .ok v n := by
+  unfold parseNumber at h
+  rcases (accumulate_spec buf start).2 t ht with ⟨_, _, ha⟩ | ⟨_, _, ha⟩ | ⟨hn, f, ha, hg⟩
+  · rw [ha] at h
+    simp only [PResult.ok.injEq] at h
+    rcases hp with hp | hp <;> rw [hp] at h <;> exact absurd h.2.2 (by decide)
+  · rw [ha] at h
+    simp only [PResult.ok.injEq] at h
+    rcases hp with hp | hp <;> rw [hp] at h <;> exact absurd h.2.2 (by decide)
+  · rw [ha] at h
+    obtain ⟨hm0, hnx, b, hv, hel, hcase⟩ := convert_el f _ v n p hp h
+    obtain ⟨hnext, hneg, hman, _, k, hk, hk1, hk2, htr⟩ := C04_accumulate buf start t f ht ha hexp
+    have h64 : f.man + 1 < 2 ^ 64 := Nat.lt_of_lt_of_le (Nat.succ_lt_succ hman) (by decide)
+    have hlo := C04_el_correct f.man f.exp10 f.neg b (by omega) (by omega) hel
+    have hr : Rne.round t.neg t.mantissa t.exponent = some b := by
+      rcases hcase with ⟨_, htrunc⟩ | ⟨_, _, hel2⟩
+      · obtain ⟨_, hmant, hexp10⟩ := htr htrunc
+        rw [← hneg, ← hmant, ← hexp10]; exact hlo
+      · rw [Nat.mod_eq_of_lt h64] at hel2
+        have hhi := C04_el_correct (f.man + 1) f.exp10 f.neg b (by omega) h64 hel2
+        have := C04_retry_sound f.neg f.man f.exp10 k t.mantissa b hlo hhi hk1 (Nat.le_of_lt hk2)
+        rw [← hneg, show t.exponent = f.exp10 - (k : Int) by omega]; exact this
+    unfold scanNumber
+    rw [ht]
+    simp only [value_of_round t hn b hr, hv, hnx, hnext]
+
+-- non-vacuity: 1.7976931348623157e308 through `el`; 21 digits through `el2`
+example : parseNumber [49,46,55,57,55,54,57,51,49,51,52,56,54,50,51,49,53,55,101,51,48,56,120] 22 0
+    = .ok (.real 9218868437227405311) 22 .el := by decide +kernel
+example : parseNumber [49,50,51,52,53,54,55,56,57,48,49,50,51,52,53,54,55,56,57,48,49,101,51,48,120] 24 0
+    = .ok (.real 5356220585486068589) 24 .el2 := by decide +kernel
 
 end Sonic.Props.C04
